@@ -585,4 +585,11 @@ MUTANTS = [
             }
         }
 """),
+
+    dict(id="c14-revert-borrow-assert", prop="C14", expect="R14.1|wac_graph::encoding::TypeEncoder::borrow|assert!", file="crates/wac-graph/src/encoding.rs",
+         old="""    fn borrow(&self, state: &mut State, res: ResourceId) -> u32 {
+        let res""",
+         new="""    fn borrow(&self, state: &mut State, res: ResourceId) -> u32 {
+        assert!(!state.scopes.is_empty());
+        let res"""),
 ]
